@@ -1,3 +1,4 @@
+import BlockModes.Thm.C14
 import BlockModes.Lemmas.SpecBlock
 import BlockModes.Thm.C02
 import BlockModes.Thm.C03
@@ -224,4 +225,47 @@ theorem causal_prefix_pcbc_ige (C : Cipher) (iv : Bytes) (s : Impl.Ige.St) (m ex
     (Glue.foldBlocks (Impl.Ige.decBlock C) s (m ++ ext)).1.take m.length = (Glue.foldBlocks (Impl.Ige.decBlock C) s m).1 :=
   ⟨causal_prefix_fold _ iv m ext, causal_prefix_fold _ s m ext⟩
 
+
+/-! ### the buffered CFB decryptor inherits the CFB propagation shape, under any cutting into calls -/
+section bufprop
+open Impl Glue
+
+/-- the recurrence is compositional: blocks after a prefix are decrypted from the chaining value the prefix leaves. -/
+theorem cfbDec_append (C : Cipher) : ∀ (a b : List Bytes) (ch : Bytes),
+    cfbDec C ch (a ++ b) = ((cfbDec C ch a).1 ++ (cfbDec C (cfbDec C ch a).2 b).1, (cfbDec C (cfbDec C ch a).2 b).2) := by
+  intro a
+  induction a with
+  | nil => intro b ch; simp [cfbDec]
+  | cons x xs ih => intro b ch; simp [cfbDec, ih]
+
+/-- **the buffered CFB decryptor, under any cutting of a whole-block ciphertext into calls, computes the block
+    recurrence** (transfer lemma: C08 any chunking = one call, C14 one call = block level, C03 block level = recurrence). -/
+theorem cfbbuf_dec_eq_recurrence (C : Cipher) (hC : C.Valid) (iv : Bytes) (hiv : iv.length = C.bs)
+    (blocks : List Bytes) (hb : AllLen C.bs blocks) (pieces : List Bytes) (hp : pieces.flatten = blocks.flatten) :
+    (C08.bufRun true C (CfbBuf.init C iv) pieces).1.flatten = (cfbDec C iv blocks).1.flatten := by
+  rw [C08.cfbbuf_pieces_eq_whole true C hC iv hiv pieces, hp, C14.cfbbuf_eq_blocks_dec C hC 1 iv hiv blocks hb,
+    Cfb.init, C03.cfb_decBlocks_eq]
+
+/-- **error propagation through the buffered decryptor**: alter ciphertext block `j` (the block after the prefix `pre`)
+    by `δ`; however the two ciphertexts are cut into calls, the plaintexts agree on the prefix, block `j` flips exactly `δ`,
+    block `j+1` becomes `c₂ ⊕ E(c ⊕ δ)`, and everything after is identical (re-synchronised). -/
+theorem cfbbuf_error_propagation (C : Cipher) (hC : C.Valid) (iv : Bytes) (hiv : iv.length = C.bs)
+    (pre : List Bytes) (c c₂ δ : Bytes) (rest : List Bytes)
+    (h1 : AllLen C.bs (pre ++ c :: c₂ :: rest)) (h2 : AllLen C.bs (pre ++ xorB c δ :: c₂ :: rest))
+    (pieces pieces' : List Bytes)
+    (hp : pieces.flatten = (pre ++ c :: c₂ :: rest).flatten)
+    (hp' : pieces'.flatten = (pre ++ xorB c δ :: c₂ :: rest).flatten) :
+    let ch := (cfbDec C iv pre).2
+    (C08.bufRun true C (CfbBuf.init C iv) pieces).1.flatten
+      = ((cfbDec C iv pre).1 ++ xorB c (C.enc ch) :: xorB c₂ (C.enc c) :: (cfbDec C c₂ rest).1).flatten ∧
+    (C08.bufRun true C (CfbBuf.init C iv) pieces').1.flatten
+      = ((cfbDec C iv pre).1 ++ xorB (xorB c (C.enc ch)) δ :: xorB c₂ (C.enc (xorB c δ)) :: (cfbDec C c₂ rest).1).flatten := by
+  intro ch
+  rw [cfbbuf_dec_eq_recurrence C hC iv hiv _ h1 pieces hp, cfbbuf_dec_eq_recurrence C hC iv hiv _ h2 pieces' hp',
+    cfbDec_append, cfbDec_append]
+  simp only [cfbDec]
+  refine ⟨rfl, ?_⟩
+  rw [xorB_assoc, xorB_comm δ, ← xorB_assoc]
+
+end bufprop
 end Thm.C15
